@@ -27,7 +27,7 @@ CHECKS = {
         bin="run_chan", build="external", pkg="run_chan", level="fault_enumeration",
         quick=dict(runs=320, wall=100), thorough=dict(runs=30000, wall=1500),
         rule="one evaluation = one seeded schedule (with cuts and injected write failures) in which BOTH databases are forked and both channels reloaded after EVERY event (every crash point of that schedule at call granularity); each reload is compared with the pre-crash in-memory durable state, the reference model after 'drop what no signature covered', the released-revocation set, and a sample of forks is resumed through resync to wind-down; non-trivial = a fault fired and an HTLC locked in afterwards; distinct = distinct trace hash",
-        expected_probes=["probe_retransmit_sig", "probe_retransmit_rev", "probe_medium_htlc_arm", "probe_commitment_with_60+_htlc_outputs"],
+        expected_probes=["probe_second_resolution_after_reload_refused", "probe_status_update_race_at_end", "probe_retransmit_sig", "probe_retransmit_rev", "probe_medium_htlc_arm", "probe_commitment_with_60+_htlc_outputs"],
         real_vs_stub=CHANSIM_STUB, assumptions=CHAN_ASSUME,
         determinism="call-driven engine: exact replay",
     ),
@@ -43,7 +43,7 @@ CHECKS = {
         bin="run_chan", build="external", pkg="run_chan", level="exploration",
         quick=dict(runs=900, wall=75), thorough=dict(runs=60000, wall=900),
         rule="two arms. release-rule: chansim schedules with cuts, write failures and forked reloads; every RevokeAndAck leaving the API (first transmission or retransmission) is checked at that instant against the durable local commitment height and against an independent BOLT-3 derivation of the node's own chain. revocation-store: a producer streams secrets into the real shachain store with bit flips, foreign seeds, replays, skips and serialise/deserialise restarts; every lookup is compared with the independent derivation; in half of the store runs the stream starts at a height k0 = 2^b - c, j*2^b - c or an arbitrary 47-bit pattern, the store for k0 received secrets being assembled from the BOLT-3 definition in the store's own serialisation. non-trivial = (release arm) fault fired and HTLC locked in afterwards / (store arm) >= 8 inserts; distinct = distinct trace hash",
-        expected_probes=["probe_rev_retransmitted", "probe_store_rejects_bad", "fault_write_fail_revoke", "fault_forged_revocation_negated-scalar", "fault_forged_revocation_bit-flip", "probe_store_started_at_large_height", "probe_store_started_above_2^32"],
+        expected_probes=["probe_store_restart_with_48_buckets", "probe_status_update_race_at_end", "probe_rev_retransmitted", "probe_store_rejects_bad", "fault_write_fail_revoke", "fault_forged_revocation_negated-scalar", "fault_forged_revocation_bit-flip", "probe_store_started_at_large_height", "probe_store_started_above_2^32"],
         real_vs_stub=dict(CHANSIM_STUB, **{"shachain.RevocationStore / RevocationProducer": "real", "secret oracle": "independent 20-line BOLT-3 generate_from_seed/derive_secret"}),
         assumptions=CHAN_ASSUME + ["a run inserts at most 20000 secrets one at a time; larger k are reached by loading a store assembled from the BOLT-3 definition (its serialisation is part of what is judged) and streaming on from there"],
         determinism="call-driven engine: exact replay",
